@@ -14,3 +14,12 @@ pub use crate::generators::{BulletproofGens, BulletproofGensShare, PedersenGens}
 
 #[cfg(feature = "yoloproofs")]
 pub mod r1cs;
+
+/// Verification hooks (off by default): re-exports of crate-private items
+/// for external runtime monitors. Adds no behaviour.
+#[cfg(feature = "verif-hooks")]
+pub mod verif_hooks {
+    pub use crate::inner_product_proof::{inner_product, InnerProductProof};
+    pub use crate::transcript::TranscriptProtocol;
+    pub use crate::util::exp_iter;
+}
